@@ -6,6 +6,8 @@ import (
 	"go/ast"
 	"go/printer"
 	"go/token"
+	"os"
+	"path/filepath"
 	"strconv"
 	"strings"
 )
@@ -72,6 +74,81 @@ func c16Rules(fset *token.FileSet, fd *ast.FuncDecl) [][2]string {
 		walk(fd.Body.List, nil)
 	}
 	return out
+}
+
+// c16RulesLast is c16Rules for functions with several results: the LAST result is the error; the error
+// expression is cut at its first '(' argument list end (fmt.Errorf format string kept).
+func c16RulesLast(fset *token.FileSet, fd *ast.FuncDecl) [][2]string {
+	var out [][2]string
+	var walk func(stmts []ast.Stmt, guard []string)
+	walk = func(stmts []ast.Stmt, guard []string) {
+		for _, s := range stmts {
+			switch x := s.(type) {
+			case *ast.ReturnStmt:
+				if len(x.Results) >= 1 {
+					name := c16Src(fset, x.Results[len(x.Results)-1])
+					if name != "nil" && name != "err" && name != "err0" {
+						out = append(out, [2]string{strings.Join(guard, " && "), name})
+					}
+				}
+			case *ast.IfStmt:
+				g := c16Src(fset, x.Cond)
+				if x.Init != nil {
+					g = c16Src(fset, x.Init) + "; " + g
+				}
+				walk(x.Body.List, append(append([]string{}, guard...), g))
+			case *ast.ForStmt:
+				walk(x.Body.List, []string{})
+			case *ast.RangeStmt:
+				walk(x.Body.List, []string{})
+			case *ast.BlockStmt:
+				walk(x.List, guard)
+			case *ast.LabeledStmt:
+				walk([]ast.Stmt{x.Stmt}, guard)
+			}
+		}
+	}
+	if fd != nil && fd.Body != nil {
+		walk(fd.Body.List, nil)
+	}
+	return out
+}
+
+// c16CommonDir finds the source of the pinned github.com/lindb/common (the RowBuilder the flat and influx
+// paths build their rows with) in the module cache: version from /repo's go.mod.
+func c16CommonDir(repo string) (ver, dir string, err error) {
+	data, err := os.ReadFile(filepath.Join(repo, "go.mod"))
+	if err != nil {
+		return "", "", err
+	}
+	for _, ln := range strings.Split(string(data), "\n") {
+		f := strings.Fields(ln)
+		for i := 0; i+1 < len(f); i++ {
+			if f[i] == "github.com/lindb/common" && strings.HasPrefix(f[i+1], "v") {
+				ver = f[i+1]
+			}
+		}
+	}
+	if ver == "" {
+		return "", "", fmt.Errorf("github.com/lindb/common not required by go.mod")
+	}
+	var cands []string
+	if v := os.Getenv("GOMODCACHE"); v != "" {
+		cands = append(cands, v)
+	}
+	if v := os.Getenv("GOPATH"); v != "" {
+		cands = append(cands, filepath.Join(v, "pkg", "mod"))
+	}
+	if h, e := os.UserHomeDir(); e == nil {
+		cands = append(cands, filepath.Join(h, "go", "pkg", "mod"))
+	}
+	for _, c := range cands {
+		d := filepath.Join(c, "github.com", "lindb", "common@"+ver)
+		if _, e := os.Stat(filepath.Join(d, "series", "row_builder.go")); e == nil {
+			return ver, d, nil
+		}
+	}
+	return "", "", fmt.Errorf("source of github.com/lindb/common@%s not found in the module cache", ver)
 }
 
 func leanPairs(ps [][2]string) string {
@@ -404,6 +481,55 @@ func init() {
 		}
 		def("influxParseFieldFloatBranchSrc", floatBranch)
 
+		// --- the flat path, branch for branch: rebuild (full body + its rejection rules) and lindb/common's RowBuilder
+		s, err = c16BodySrc(fsetF, FindFunc(fdc, "BrokerRowFlatDecoder", "rebuild"))
+		if err != nil {
+			return "", fmt.Errorf("rebuild: %w", err)
+		}
+		def("flatRebuildSrc", s)
+		sb.WriteString("def flatRebuildRules : List (String × String) := " + leanPairs(c16RulesLast(fsetF, FindFunc(fdc, "BrokerRowFlatDecoder", "rebuild"))) + "\n\n")
+		s, err = c16BodySrc(fsetF, FindFunc(fdc, "BrokerRowFlatDecoder", "DecodeTo"))
+		if err != nil {
+			return "", fmt.Errorf("DecodeTo: %w", err)
+		}
+		def("flatDecodeToSrc", s)
+		fsetRO, ro, err := ParseFile(repo, "series/metric/row_readonly.go")
+		if err != nil {
+			return "", err
+		}
+		s, err = c16BodySrc(fsetRO, FindFunc(ro, "readOnlyRow", "NewCompoundFieldIterator"))
+		if err != nil {
+			return "", fmt.Errorf("NewCompoundFieldIterator: %w", err)
+		}
+		def("newCompoundFieldIteratorSrc", s)
+		ver, dir, err := c16CommonDir(repo)
+		if err != nil {
+			return "", err
+		}
+		def("lindbCommonVersion", ver)
+		fsetRB, rbf, err := ParseFile(dir, "series/row_builder.go")
+		if err != nil {
+			return "", err
+		}
+		for _, f := range [][3]string{
+			{"RowBuilder", "Reset", "rowBuilderResetSrc"},
+			{"RowBuilder", "AddTag", "rowBuilderAddTagSrc"},
+			{"RowBuilder", "AddSimpleField", "rowBuilderAddSimpleFieldSrc"},
+			{"RowBuilder", "AddCompoundFieldData", "rowBuilderAddCompoundFieldDataSrc"},
+			{"RowBuilder", "AddCompoundFieldMMSC", "rowBuilderAddCompoundFieldMMSCSrc"},
+			{"RowBuilder", "AddMetricName", "rowBuilderAddMetricNameSrc"},
+			{"RowBuilder", "AddNameSpace", "rowBuilderAddNameSpaceSrc"},
+			{"RowBuilder", "dedupTagsThenXXHash", "rowBuilderDedupSrc"},
+			{"rowKVs", "Less", "rowKVsLessSrc"},
+		} {
+			s, err := c16BodySrc(fsetRB, FindFunc(rbf, f[0], f[1]))
+			if err != nil {
+				return "", fmt.Errorf("lindb/common %s.%s: %w", f[0], f[1], err)
+			}
+			def(f[2], s)
+		}
+		sb.WriteString("def rowBuilderBuildRules : List (String × String) := " + leanPairs(c16RulesLast(fsetRB, FindFunc(rbf, "RowBuilder", "Build"))) + "\n\n")
+
 		// --- models/limits.go
 		fsetL, lm, err := ParseFile(repo, "models/limits.go")
 		if err != nil {
@@ -433,7 +559,7 @@ func init() {
 		}
 		sb.WriteString("\n")
 		var en [][2]string
-		for _, n := range []string{"EnableMetricNameLengthCheck", "EnableFieldNameLengthCheck", "EnableFieldsCheck", "EnableTagNameLengthCheck", "EnableTagValueLengthCheck", "EnableTagsCheck"} {
+		for _, n := range []string{"EnableMetricNameLengthCheck", "EnableFieldNameLengthCheck", "EnableFieldsCheck", "EnableTagNameLengthCheck", "EnableTagValueLengthCheck", "EnableTagsCheck", "EnableNamespaceLengthCheck"} {
 			s, err := c16BodySrc(fsetL, FindFunc(lm, "Limits", n))
 			if err != nil {
 				return "", fmt.Errorf("Limits.%s: %w", n, err)
